@@ -316,6 +316,9 @@ func runC17(c *Ctx) {
 
 	// ---- signed data
 	runC17Signed(c, rc[0].k, rc[0].c, rc[1].k, rc[1].c, rk1, rsaC1)
+	if rsaC1 != nil {
+		runC17P7Extra(c, rk1, rsaC1, []*gx509.Certificate{rc[0].c, rc[1].c})
+	}
 	// ---- PKCS#12
 	runC17P12(c, rk1, rsaC1)
 	runC17P12Std(c)
